@@ -364,6 +364,7 @@ func RunWorker(id string, p Params, shard, of, from, only int, out string) int {
 		if len(res.Samples) == 0 && res.fallback != nil {
 			res.Samples = append(res.Samples, res.fallback)
 		}
+		res.Hashes = res.Hashes[:0]
 		for h := range res.hashSet {
 			res.Hashes = append(res.Hashes, h)
 		}
@@ -372,6 +373,7 @@ func RunWorker(id string, p Params, shard, of, from, only int, out string) int {
 		os.Rename(out+".tmp", out)
 	}
 	code := 0
+	lastFlush, flushedViolations := time.Now(), 0
 	func() {
 		defer func() {
 			if r := recover(); r != nil {
@@ -400,6 +402,12 @@ func RunWorker(id string, p Params, shard, of, from, only int, out string) int {
 			}
 			atomic.StoreInt64(&wk.startCPU, 0)
 			res.Evaluations++
+			// what has been observed so far survives the death of this worker (watchdog, runtime crash): the result
+			// file is rewritten after every new violation and every few seconds (cadence only, no verdict depends on it)
+			if len(res.Violations) != flushedViolations || time.Since(lastFlush) > 5*time.Second {
+				flush()
+				lastFlush, flushedViolations = time.Now(), len(res.Violations)
+			}
 		}
 	}()
 	flush()
